@@ -91,11 +91,11 @@ func genC03(g *G, n int, out io.Writer) {
 				// listed but not defined, at any position of the list
 				at := g.n(len(lst) + 1)
 				ghost := "ghost"
-				if len(c.Validations) > 0 && g.coin(0.5) {
+				if len(c.Validations) > 0 && (i+len(lst))%2 == 0 { // (no draw from the generator here: the formulas of the later cases stay the ones the earlier sweeps ran)
 					// … among them the name of a defined validation in another capitalisation, or with a blank after it: names are
 					// compared as written
-					v0 := c.Validations[g.n(len(c.Validations))].Name
-					ghost = g.pick([]string{strings.ToUpper(v0), strings.Title(v0), v0 + " ", " " + v0})
+					v0 := c.Validations[(i/2)%len(c.Validations)].Name
+					ghost = []string{strings.ToUpper(v0), strings.Title(v0), v0 + " ", " " + v0}[(i/3)%4]
 					for _, v := range c.Validations {
 						if v.Name == ghost {
 							ghost = "ghost"
